@@ -116,6 +116,8 @@ def check(ctx, fname, sname, sp, f, tags, rng, ref=None):
     comp = functab.composed_component(fname, tags)
     cfg = util.space_tag(sp)
     try:
+        if 'nograd' in tags:
+            raise NotImplementedError   # documented as non-differentiable (Huber without smoothing = 1-norm)
         grad = f.gradient
     except (NotImplementedError, odl.OpNotImplementedError):
         grad = None
